@@ -1,15 +1,20 @@
 """C15 — non-in-place calls never modify the arrays passed to them (DESIGN.md section 7, C15).
 
+INVENTORY c15_translate: every public callable of the 8 anchored python modules is driven by c15_drivers.py or listed out of
+        scope with a reason; parameter lists of driven callables unchanged; C++ class methods and the array arguments each C entry
+        point stores through (syntactic scan of chist_pywrap.c, cosmolib_pywrap.c, htmc.cc) agree with the extractor's C table.
 STATIC  every driver of c15_drivers.py (one public function + one option valuation) is turned into an
         effect skeleton by harness/translate/c15_skeleton.py from the sources of the scratch build, and
         `frame_ok skeleton params = true` is one generated, kernel-checked lemma (vm_compute).  By
-        C15_frame_ok_sound no execution of the skeleton changes a parameter's buffer.
+        C15_frame_ok_sound no execution of the skeleton changes a parameter's buffer (C15_frame_ok_decides: and conversely).
+        `ret_alias skeleton params ret` (C15_alias_sound) predicts which arguments the return value may share memory with.
 DYNAMIC the same driver text is compiled and run against the scratch build on the matrix
         {native, byte-swapped(, mixed)} x {contiguous, strided} x {0-d, 1-d, 2-d} x {f8, f4, i8, i4 / structured}
         with a snapshot (bytes of the whole base buffer, dtype incl. byte order, shape, strides,
         writeable) of every array argument before and after; the snapshots are compared inside Coq by
-        the verified checker.  Any difference is a failing input.
-The two are cross-checked: a driver whose obligation fails but never mutates dynamically (after the
+        the verified checker.  Any difference is a failing input (verdict >= 2).  The arguments the real return value shares
+        memory with must be inside the predicted set (else verdict bit 0: model <> implementation).
+The two are cross-checked: a driver whose obligation fails but never mutates dynamically (after a full-matrix
 search) is reported `no-failing-input-found`; a driver that mutates although its obligation was
 discharged is reported as a failing input AND as an extractor defect.
 """
